@@ -1,4 +1,5 @@
 //@ tu: libxcm/core/xcm_addr.c
+//@ replay: addr_native.py
 //@ enforce: name_port_make
 //@ props: C12
 //@ expect: postcondition>=2 canary=2
